@@ -94,22 +94,34 @@ func main() {
 			me.SetLamport(idx.Lamport([]uint32{lam - 1, lam, lam - 2}[ps.lamRel]))
 			var tail [24]byte
 			tail[0] = byte(i + 1)
-			me.SetID(tail)
+			if i%2 == 1 {
+				// this parent's ID was stamped while the event carried another Lamport time (an ID is an opaque name:
+				// the checks must use the parent event's Lamport time, not bytes of its ID)
+				real := me.Lamport()
+				me.SetLamport(1)
+				me.SetID(tail)
+				me.SetLamport(real)
+			} else {
+				me.SetID(tail)
+			}
 			pev[i] = &me.BaseEvent
 		}
 		var evals, accepted, boundary int64
+		// ONE checker object over a reader whose answers change between calls (a node keeps its checkers across
+		// epoch changes): its verdicts must always follow the reader's current answer
+		rd := &reader{vIn, 0}
+		chk := &eventcheck.Checkers{Basiccheck: basiccheck.New(), Epochcheck: epochcheck.New(rd), Parentscheck: parentscheck.New()}
 		for _, epoch := range small {
 			for _, frame := range small {
 				for em := 0; em < 2; em++ {
 					for cm := 0; cm < 2; cm++ {
-						rd := &reader{vIn, idx.Epoch(epoch)}
+						rd.vv, rd.ep = vIn, idx.Epoch(epoch)
 						if em == 1 {
 							rd.ep = idx.Epoch(epoch + 1)
 						}
 						if cm == 1 {
 							rd.vv = vOut
 						}
-						chk := &eventcheck.Checkers{Basiccheck: basiccheck.New(), Epochcheck: epochcheck.New(rd), Parentscheck: parentscheck.New()}
 						for _, pl := range lists {
 							var me dag.MutableBaseEvent
 							me.SetCreator(creators[0])
